@@ -1,7 +1,7 @@
 """C12 -- penalty connection matrices.
 
 Python layer under contract here: calc_kt_kr (symmetry, degree-1 homogeneity), TStiff2D.calc_k0 (placement, interface lines,
-penalty constants), PanelAssembly.get_k0_conn (dispatch, placement, survival under symmetrisation).  Connection kernels: c12_kernel.
+penalty constants), PanelAssembly.get_k0_conn (dispatch, placement, survival under symmetrisation).  Connection kernels (15 functions, real .pyx text): c12_kernels.
 """
 import sys
 from ..core import run_check
@@ -9,12 +9,15 @@ from . import py_stiffeners
 
 
 def body(led):
-    led.assume('C12: connection kernels through their contracts; laminate A, D blocks linear in the moduli (C01)')
+    led.assume('C12: laminate A, D blocks linear in the moduli (C01); table functions integral_ff* through their C10 contracts; '
+               'calc_f / calc_fxi return the Bardell function / its derivative at the given point (C10)')
     led.trust('cmverif symbolic executor, normaliser')
     py_stiffeners.check_kt_kr(led)
     py_stiffeners.check_tstiff2d(led)
     from . import c12_conn
     c12_conn.body(led)
+    from . import c12_kernels
+    c12_kernels.body(led)
 
 
 def main():
